@@ -23,7 +23,7 @@ META = {
                   "section `What Respects assumes`, U1-U8, with regression patches seeded/C10-unsound-*): the go/types extractor (syntactic must-locksets; interface calls "
                   "by class-hierarchy edges; function values and go-targets from the empty lockset; pointer aliases followed only from &x.f call arguments into struct fields; "
                   "locks and fields identified by Type.field, not by instance; unlocks through unnamed *sync.Mutex locals ignored); the reviewed annotations in "
-                  "go/extract/access_annotations.json (closure locks of Conn.do, the read-lock hand-off waitResponse→Batch incl. the data-dependent guard batch.err, ownership "
+                  "go/extract/accesses/access_annotations.json (closure locks of Conn.do, the read-lock hand-off waitResponse→Batch incl. the data-dependent guard batch.err, ownership "
                   "tokens for writeBatch / Writer.writerStats / Reader.cancel / protocol pages / per-call codec objects, SASL-before-publication, atomic stats types); the Go "
                   "memory model as abstracted in Model/Lockset.lean (channels, Once, WaitGroup, Pool only as tokens); the race detector only sees the schedules that happened.",
 }
@@ -90,7 +90,7 @@ def run(ctx):
         "real executions respect the extracted table: every access to a field of a tracked type is one of the tabulated sites and happens while the recorded locks are held (extractor soundness; sampled by the race detector)",
         "aliasing by field identity: a lock / field is identified by Type.field; holding Type.mutex of one instance while touching another instance's field is not distinguished",
         "interface calls are approximated by edges to every implementing method, function values start from the empty lockset; pointers to fields are followed only from &x.f call arguments into struct fields (readerStack.reader → Conn.rbuf); escapes through locals/returns/maps/channels are not (notes U2)",
-        "hand-offs listed in go/extract/access_annotations.json (closure_locks, call_acquires, tokens, ctor_funcs, atomic_types) hold as justified there; tokens stand for channel/Once/WaitGroup ordering",
+        "hand-offs listed in go/extract/accesses/access_annotations.json (closure_locks, call_acquires, tokens, ctor_funcs, atomic_types) hold as justified there; tokens stand for channel/Once/WaitGroup ordering",
         "Go memory model as abstracted in Model/Lockset.lean: program order, unlock→lock (RUnlock↛RLock), go statement; atomics are race free among themselves",
         "race-detector validation covers only the schedules that occurred in the generated programs (quick: 10 scenarios × 8 rounds; thorough: × 500 rounds × 4 seeds, GOMAXPROCS 2/4/8/16)",
     ]
